@@ -182,6 +182,7 @@ def run(prop: str, tier: str, replay: str | None) -> int:
     oracle_failures: list[dict] = []
     known_hits: dict[str, dict] = {}
     per_component = {}
+    infra = []
 
     for comp in comps:
         t_comp = time.time()
@@ -211,6 +212,16 @@ def run(prop: str, tier: str, replay: str | None) -> int:
         n_dis = 0
         n_or = 0
         for c, io, mo in zip(cases, impl_outs, model_outs):
+            if isinstance(io, str) and io.startswith("HARNESS-EXC TimeoutError"):
+                # the harness itself ran out of time (overloaded machine): evaluate the case again on its own; a second
+                # timeout is an infrastructure failure (exit 2), never a verdict about the code
+                try:
+                    io = comp.impl(c)
+                except Exception as exc:  # noqa: BLE001
+                    io = "HARNESS-EXC " + type(exc).__name__
+                if isinstance(io, str) and io.startswith("HARNESS-EXC TimeoutError"):
+                    infra.append({"component": comp.name, "case": c})
+                    continue
             evaluations += 1
             lab = comp.label(c, io)
             histogram[f"{comp.name}:{lab}"] = histogram.get(f"{comp.name}:{lab}", 0) + 1
@@ -313,6 +324,11 @@ def run(prop: str, tier: str, replay: str | None) -> int:
         path = core.write_replay(prop, "obligation", payload)
         lines_out.append(f"VIOLATION property={prop} replay={path} no-failing-input-found")
         rc = 1
+    if rc == 0 and infra:
+        # nothing wrong was found, but some cases could not be evaluated at all: not a verdict
+        print(f"[{prop}] infrastructure failure: {len(infra)} case(s) timed out twice in the harness "
+              f"(first: component {infra[0]['component']})", file=sys.stderr)
+        return 2
 
     # ---- evidence --------------------------------------------------------------------------
     ev = {
